@@ -34,6 +34,9 @@ func main() {
 	if id == "C03" && mode == "worker" {
 		os.Exit(checks.C03Worker(os.Args[3:]))
 	}
+	if id == "C14" && mode == "worker" {
+		os.Exit(checks.C14Worker(os.Args[3:]))
+	}
 	c, ok := checks.Registry[id]
 	if !ok {
 		fmt.Fprintln(os.Stderr, "unknown check", id)
